@@ -53,6 +53,16 @@ fn verify_all(item: identity_jose::jws::JwsValidationItem<'_>) -> &'static str {
   }
 }
 
+/// the same item verified with a key that pins an algorithm: such a key must not stand in for a missing `alg` of the
+/// protected header
+fn pinned_verifies(item: identity_jose::jws::JwsValidationItem<'_>) -> bool {
+  let verifier = JwsVerifierFn::from(|_input: VerificationInput, _key: &Jwk| Ok(()));
+  let no_alg = item.protected_header().map(|h| h.alg().is_none()).unwrap_or(true);
+  let mut pinned = sample_jwk();
+  pinned.set_alg("EdDSA");
+  no_alg && item.verify(&verifier, &pinned).is_ok()
+}
+
 pub fn run(args: &[&str]) -> String {
   let hs: Option<Vec<Option<HSpec>>> = args[1..].iter().map(|t| parse_hspec(t)).collect();
   let Some(hs) = hs else { return "bad-request".into() };
@@ -82,11 +92,13 @@ pub fn run(args: &[&str]) -> String {
       }
       fail(if ok { "ok" } else { "err" }.into(), f)
     }
-    "general" if hs.len() % 2 == 0 && hs.len() >= 2 => {
+    // `generale` / `generaled`: the same with the EMPTY payload, attached / detached (the header rules do not depend on the payload)
+    "general" | "generale" | "generaled" if hs.len() % 2 == 0 && hs.len() >= 2 => {
       let Some(b) = built else { return "bad-request".into() };
       let n = hs.len() / 2;
       let mut f = None;
-      let mut enc = match GeneralJwsEncoder::new(b"payload", recipient(&b[0], &b[1]), false) {
+      let payload: &[u8] = if args[0] == "general" { b"payload" } else { b"" };
+      let mut enc = match GeneralJwsEncoder::new(payload, recipient(&b[0], &b[1]), args[0] == "generaled") {
         Ok(e) => e,
         Err(_) => return fail("err@0".into(), judge(false, &hs[0], &hs[1], "GeneralJwsEncoder::new")),
       };
@@ -117,6 +129,7 @@ pub fn run(args: &[&str]) -> String {
         Ok(item) => {
           let f = judge(true, &hs[0], &hs[1], "decode_flattened_serialization");
           let v = verify_all(item);
+          let v = if Decoder::new().decode_flattened_serialization(tok.as_bytes(), None).map(pinned_verifies).unwrap_or(false) { "ok:verified-through-the-key's-alg" } else { v };
           let f = f.or(if v == "ok:verified" && hs[0].as_ref().and_then(|h| h.alg.clone()).is_none() {
             Some("verify-without-protected-alg:verified without alg in the protected header".into())
           } else {
@@ -138,6 +151,7 @@ pub fn run(args: &[&str]) -> String {
         Ok(item) => {
           let f = judge(true, &hs[0], &None, "decode_compact_serialization");
           let v = verify_all(item);
+          let v = if Decoder::new().decode_compact_serialization(tok.as_bytes(), None).map(pinned_verifies).unwrap_or(false) { "ok:verified-through-the-key's-alg" } else { v };
           let f = f.or(if v == "ok:verified" && hs[0].as_ref().and_then(|h| h.alg.clone()).is_none() {
             Some("verify-without-protected-alg:verified without alg in the protected header".into())
           } else {
@@ -258,6 +272,8 @@ pub fn gen(thorough: bool, seed: u64, out: &mut impl Write) {
   for a in rec {
     for b in rec {
       writeln!(out, "C11 general {} {} {} {}", a.0, a.1, b.0, b.1).unwrap();
+      writeln!(out, "C11 generale {} {} {} {}", a.0, a.1, b.0, b.1).unwrap();
+      writeln!(out, "C11 generaled {} {} {} {}", a.0, a.1, b.0, b.1).unwrap();
       writeln!(out, "C11 dgeneral {} {} {} {}", a.0, a.1, b.0, b.1).unwrap();
       if thorough {
         for c in rec {
